@@ -501,3 +501,37 @@ func HarnessC07String(a []int) {
 	}
 	verifCover("C07.string.end")
 }
+
+func init() {
+	verifHarnesses["HarnessStubCalendar"] = HarnessStubCalendar
+}
+
+// HarnessStubCalendar validates the engine's time.Date stub against the real package time: the
+// stub is exact on valid civil dates and yields a different date on invalid ones, which is all
+// DPT_11001.IsValid observes. Natively this loops over every (year 1895..2105, month 0..255, day
+// 0..255) plus century/leap corners and the corners of the uint16 year range; under the engine it is a no-op, so the
+// comparison runs as part of the native validation of this harness' sample path.
+func HarnessStubCalendar(a []int) {
+	if !verifNative() {
+		verifCover("stub.calendar")
+		return
+	}
+	check := func(y int) {
+		for m := 0; m < 256; m++ {
+			for d := 0; d < 256; d++ {
+				v := DPT_11001{Year: uint16(y), Month: uint8(m), Day: uint8(d)}
+				want := c08ValidDate(y, m, d)
+				if v.IsValid() != want {
+					verifFail("stub.calendar.mismatch")
+				}
+			}
+		}
+	}
+	for y := 1895; y <= 2105; y++ {
+		check(y)
+	}
+	for _, y := range []int{0, 1, 4, 100, 400, 1600, 1700, 9999, 10000, 32767, 32768, 65535} {
+		check(y)
+	}
+	verifCover("stub.calendar")
+}
